@@ -239,6 +239,10 @@ def packed_tensor_rules(chk):
             ok = a == [want_data, f"{t0}._bits", f"{t0}.size()", f"{t0}.stride()"]
             chk.require("C04.R5", site, ok, f"PackedTensor dispatch ({'detach' if is_detach else 'move'}): re-wraps `{a[0] if a else ''}` with unchanged bits/size/stride", "PackedTensor.__torch_dispatch__", "dispatch re-wrap", "detach / device move of a packed tensor changes its bit width or geometry")
         else:
+            # an op that writes into its operand (zero_, fill_, copy_, out=) run on the unpacked temporary is silently lost
+            refuses_mut = any(("is_mutable" in U(c_) or "endswith('_')" in U(c_) or 'endswith("_")' in U(c_)) for c_, t_, _ in p.conds) or any("is_mutable" in U(x_) for x_ in ast.walk(disp) if isinstance(x_, ast.Attribute))
+            chk.require("C04.R5", site, refuses_mut, "PackedTensor dispatch (other ops): mutating ops are refused or written back (they would act on the unpacked temporary only)", "PackedTensor.__torch_dispatch__", "mutating ops act on a temporary",
+                        "p.zero_(), p.fill_(3), p.copy_(t), p[0] = 0 or torch.add(a, b, out=p) on a PackedTensor: they return p without error and p.unpack() is unchanged")
             wm = f"pytree.tree_map_only(PackedTensor, lambda x: x.unpack(), ({args}, {kwargs} or {{}}))"
             ok = et == f"{op}(*{wm}[0], **{wm}[1])"
             chk.require("C04.R5", site, ok, f"PackedTensor dispatch (other ops): unpack mapped over args and kwargs, then op called: `{et[:100]}`", "PackedTensor.__torch_dispatch__", "dispatch unpacks args and kwargs", "an op receiving a packed tensor by keyword (or in a list) acts on the packed bytes")
